@@ -115,7 +115,28 @@ pub fn gen_project(case: &mut Case, o: &ProjectOpts) -> GenProject {
     // fragments are distributed over up to three library files in different directories; every file
     // imports (by name or wildcard, variously spelled paths) what its own definitions spread, so
     // import chains, diamonds and cycles between files occur
-    let split = if o.imports { crate::split::split_into_files(&mut case.ch, &doc) } else { crate::split::FileSplit { files: vec![("main.graphql".into(), doc.clone())], max_chain: 0, diamond: false, specific_imports: false, wildcard_imports: false } };
+    // one case in five: a chain of three tiny fragments on the query root, one per nested library file, so that
+    // lib.graphql and sub/lib.graphql both write "./sub/lib.graphql" and mean different files
+    let mut doc = doc;
+    let mut forced: Vec<(String, usize)> = vec![];
+    if o.imports && case.ch.chance(1, 5) {
+        let has_chain_names = doc.iter().any(|d| matches!(d, MExecDef::Frag(f) if f.name.starts_with("Chain")));
+        let qroot = gs.schema.root(OpType::Query);
+        let first_query = doc.iter().position(|d| matches!(d, MExecDef::Op(o) if o.op == OpType::Query));
+        if let (false, Some(root), Some(qi)) = (has_chain_names, qroot, first_query) {
+            let tn = || MSelection::Field(MFieldSel { alias: None, name: "__typename".into(), args: vec![], directives: vec![], sel: None });
+            let sp = |n: &str| MSelection::Spread { name: n.into(), directives: vec![] };
+            doc.push(MExecDef::Frag(MFragment { name: "ChainC".into(), on: root.clone(), directives: vec![], sel: vec![tn()] }));
+            doc.push(MExecDef::Frag(MFragment { name: "ChainB".into(), on: root.clone(), directives: vec![], sel: vec![tn(), sp("ChainC")] }));
+            doc.push(MExecDef::Frag(MFragment { name: "ChainA".into(), on: root.clone(), directives: vec![], sel: vec![tn(), sp("ChainB")] }));
+            if let MExecDef::Op(o) = &mut doc[qi] {
+                o.sel.push(sp("ChainA"));
+            }
+            forced = vec![("ChainA".into(), 1), ("ChainB".into(), 2), ("ChainC".into(), 3)];
+            case.label("nested-chain-a-b-c");
+        }
+    }
+    let split = if o.imports { crate::split::split_into_files_forced(&mut case.ch, &doc, &forced) } else { crate::split::FileSplit { files: vec![("main.graphql".into(), doc.clone())], max_chain: 0, diamond: false, specific_imports: false, wildcard_imports: false } };
     for (rel, m) in &split.files {
         op_models.push((join(&ops_base, rel), m.clone()));
     }
